@@ -140,13 +140,20 @@ class World:
 
             @staticmethod
             def unlink(path, *a, **k):
-                world.events.append(('unlink', os.path.basename(path), os.path.exists(path)))
+                if str(path).startswith(world.head):          # part of saving the position: a crash point
+                    world._fault('unlink')
+                else:
+                    world.events.append(('unlink', os.path.basename(path), os.path.exists(path)))
                 return os.unlink(path, *a, **k)
+
+            remove = unlink
 
             @staticmethod
             def rename(a, b):
                 world._fault('rename')
                 return os.rename(a, b)
+
+            replace = rename
 
         R.time = lambda: world.now
         R.datetime = FakeDT
@@ -169,8 +176,9 @@ class World:
 
     def _open(self, path, mode='r', *a, **k):
         world = self
-        if isinstance(path, str) and path.endswith('.tmp') and 'w' in mode:
-            world._fault('open_tmp')
+        if isinstance(path, str) and path.startswith(self.head) and any(c in mode for c in 'wax+'):
+            # the head file or its temp file opened for writing: every file-system operation on it is a crash point
+            world._fault('open')
             f = builtins.open(path, mode, *a, **k)
             return _FaultyFile(world, f)
         if isinstance(path, str) and os.path.dirname(path) == self.logs and 'w' in mode:
@@ -221,7 +229,7 @@ class _FaultyFile:
 
     def write(self, s):
         try:
-            self.w._fault('write_tmp')
+            self.w._fault('write')
         except Crash:
             self._spill(s)
             raise
@@ -235,7 +243,7 @@ class _FaultyFile:
 
     def close(self):
         try:
-            self.w._fault('close_tmp')
+            self.w._fault('close')
         except Crash:
             self._spill()
             raise
@@ -274,6 +282,8 @@ class Monitor:
         self.taint_names = set()
         self.names_ever = set()
         self.cur_name = None                 # the file that holds the newest record
+        self.frac_seen = False               # a caller-given timestamp had a sub-microsecond fraction
+        self.positioned = {}                 # obj -> how it was last positioned ('start' | 'end' | 'pos' | 'new')
         self.violations = []                 # (formula, text, sig)
         self.counts = {}
 
@@ -402,6 +412,10 @@ class Monitor:
             if not known and what == 'skip':
                 sig['reader_autorefresh'] = o in self.autoref
                 sig['current_file_vanished'] = bool(ctx.get('current_vanished'))
+            if not known and what == 'dup_or_reorder':
+                sig['writer_object'] = o == W
+                sig['after_seek_to_saved_pos'] = self.positioned.get(o) == 'pos'
+                sig['fractional_timestamp_given'] = self.frac_seen
             self._viol('C13_ExactlyOnceInOrder', text, sig)
         self.last[o] = lastid
 
@@ -410,9 +424,11 @@ class Monitor:
         self.poscur[o] = self.last.get(o, UNKNOWN)
 
     def after_seek(self, o, how):
+        self.positioned[o] = ('start', 'end', 'pos')[how]
         self.last[o] = 0 if how == 0 else UNKNOWN if how == 1 else self.poscur.get(o, UNKNOWN)
 
     def after_reopen(self, o):
+        self.positioned[o] = 'new'
         self.last[o] = UNKNOWN
         self.poscur.pop(o, None)
 
@@ -455,7 +471,20 @@ class Replayer:
 
     # -- one label -----------------------------------------------------------------------------------------------------
     def do(self, lab):
-        """returns the real observation of the step: dict(ret, exc, events, cells, new_name)"""
+        """returns the real observation of the step: dict(ret, exc, events, cells).  An exception raised by the code
+        under test in a call other than read() ends the history (out['fatal']): it is an observation, not a failure
+        of the harness."""
+        try:
+            return self._do(lab)
+        except (Crash, common.MachineryError):
+            raise
+        except Exception as e:   # noqa
+            if lab[0] == 'write':
+                # the record may or may not have reached the file; the monitor learns about the events seen so far
+                self.mon.after_write(self.nrec, lab[2], self.w.events)
+            return {'ret': None, 'exc': e, 'cells': [], 'events': self.w.events, 'fatal': True}
+
+    def _do(self, lab):
         a, o, x, y = lab
         w = self.w
         w.events = []
@@ -464,7 +493,13 @@ class Replayer:
             self.nrec += 1
             val = w.codec.value(self.nrec, x)
             prev = max([self.ts_of_name(lf.path) for lf in self.objs[W].logfiles], default=0)
-            if y:
+            if y >= 100:       # a caller-given float timestamp with a sub-microsecond fraction (same file name)
+                tsf = w.ts_of(y - 100) + 5e-7
+                if int(tsf * 1_000_000) != w.us_of(y - 100) or tsf == w.ts_of(y - 100):
+                    raise common.MachineryError('cannot render a sub-microsecond fraction')
+                n = self.objs[W].write(val, tsf)
+                self.mon.frac_seen = True
+            elif y:
                 n = self.objs[W].write(val, w.ts_of(y))
             else:
                 n = self.objs[W].write(val)
@@ -581,7 +616,9 @@ class Replayer:
                     linked = os.stat(ob.logfiles[ob.read_idx].path).st_ino == os.fstat(f.fileno()).st_ino
                 except OSError:
                     linked = False
-            objs[o] = {'lf': [{'ts': self.ts_of_name(lf.path), 'sz': _div(lf.size, u)} for lf in ob.logfiles],
+            objs[o] = {'lf': [{'ts': self.ts_of_name(lf.path), 'sz': _div(lf.size, u),
+                              'fr': lf.timestamp * 1_000_000 != World.us_of_name(lf.path) and
+                              int(lf.timestamp * 1_000_000) == World.us_of_name(lf.path)} for lf in ob.logfiles],
                        'ridx': ob.read_idx, 'open': f is not None, 'off': _div(f.tell(), u) if f is not None else 0,
                        'linked': linked, 'closed': closed}
             p = self.saved.get(o)
@@ -607,7 +644,8 @@ def norm_obs(obs):
     """parsed TLA+ Obs value -> the shape produced by Replayer.project()"""
     objs = {}
     for o, v in obs['objs'].items():
-        objs[o] = {'lf': [{'ts': e['ts'], 'sz': e['sz']} for e in v['lf']], 'ridx': v['ridx'], 'open': v['open'],
+        objs[o] = {'lf': [{'ts': e['ts'], 'sz': e['sz'], 'fr': e['fr']} for e in v['lf']], 'ridx': v['ridx'],
+                   'open': v['open'],
                    'off': v['off'] if v['open'] else 0, 'linked': v['linked'], 'closed': v['closed'],
                    'pos': dict(v['pos'])}
     return {'dir': [{'ts': e['ts'], 'c': list(e['c'])} for e in obs['dir']], 'objs': objs, 'wopen': obs['wopen'],
@@ -688,6 +726,12 @@ def replay_path(path, nodes, mode, unit=8, step=1.0, slack=(0, 0), utc=True):
             except common.MachineryError as e:
                 if res['drift'] is None:
                     res['drift'] = (i, f'label {lab} not executable on the real world: {e}')
+                break
+            if out.get('fatal'):
+                if res['drift'] is None:
+                    res['drift'] = (i, f'{lab} raised {out["exc"]!r} in the code under test')
+                for v in rp.mon.violations[nv:]:
+                    res['violations'].append((v[0], v[1], v[2], i))
                 break
             res['steps'] += 1
             res['labels'][lab[0]] = res['labels'].get(lab[0], 0) + 1
